@@ -1803,12 +1803,18 @@ class GeneratorLoops:
             for fn in c.body:
                 if not (isinstance(fn, ast.FunctionDef) and fn.name.startswith('_') and not fn.name.startswith('__')):
                     continue
-                if fn.decorator_list and not (c is not tree and all(isinstance(d, ast.Name) and d.id == 'staticmethod' for d in fn.decorator_list)):
+                is_cm = any(ast.unparse(d).split('.')[-1] == 'contextmanager' for d in fn.decorator_list)
+                others = [d for d in fn.decorator_list if ast.unparse(d).split('.')[-1] != 'contextmanager']
+                if others and not (c is not tree and all(isinstance(d, ast.Name) and d.id == 'staticmethod' for d in others)):
                     continue
                 ys = [x for x in _walk_fn_own(fn) if isinstance(x, (ast.Yield, ast.YieldFrom))]
-                if len(ys) != 1 or not isinstance(ys[0], ast.Yield) or ys[0].value is None:
+                if len(ys) != 1 or not isinstance(ys[0], ast.Yield) or (ys[0].value is None and not is_cm):
                     continue
-                if any(isinstance(x, (ast.Try, ast.With, ast.FunctionDef, ast.Lambda, ast.ClassDef, ast.Global, ast.Nonlocal)) for x in _walk_fn_own(fn)):
+                if any(isinstance(x, (ast.FunctionDef, ast.Lambda, ast.ClassDef, ast.Nonlocal)) for x in _walk_fn_own(fn)):
+                    continue
+                if not is_cm and any(isinstance(x, (ast.Try, ast.With, ast.Global)) for x in _walk_fn_own(fn)):
+                    continue
+                if fn.args.vararg or fn.args.kwarg:
                     continue
                 if any(isinstance(x, ast.Return) and x.value is not None for x in _walk_fn_own(fn)):
                     continue
@@ -1822,6 +1828,29 @@ class GeneratorLoops:
                     par = parents.get(id(cur))
                     chain.append((par, cur))
                     cur = par
+                if is_cm:
+                    # a context manager: the yield sits in the body of with blocks / try-finally only; what follows it outside a finally clause only runs when the body completes
+                    okc = True
+                    post = False
+                    for par, ch in chain:
+                        if isinstance(par, ast.With):
+                            if not any(x is ch for x in par.body):
+                                okc = False
+                            elif par.body[-1] is not ch:
+                                post = True
+                        elif isinstance(par, ast.Try):
+                            if par.handlers or par.orelse or not any(x is ch for x in par.body):
+                                okc = False
+                            elif par.body[-1] is not ch:
+                                post = True
+                        elif isinstance(par, ast.FunctionDef):
+                            if par.body[-1] is not ch:
+                                post = True
+                        else:
+                            okc = False
+                    if okc:
+                        gens.setdefault(fn.name, []).append((c, fn, ystmt, 'cm', post))
+                    continue
                 if any(not isinstance(par, (ast.For, ast.While, ast.If, ast.FunctionDef)) for par, _ in chain):
                     continue
                 in_loop = any(isinstance(par, (ast.For, ast.While)) for par, _ in chain)
@@ -1867,6 +1896,8 @@ class GeneratorLoops:
                 if nm not in gens:
                     return node
                 c, fn, ystmt, in_loop, tail = gens[nm]
+                if in_loop == 'cm':
+                    return node
                 if is_m != (c is not me.tree):
                     return node
                 # break / continue of BODY that belong to the consumer loop
@@ -1915,7 +1946,58 @@ class GeneratorLoops:
                 ast.fix_missing_locations(marker)
                 changed[0] = True
                 return marker
+            def visit_With(self, node):
+                self.generic_visit(node)
+                if len(node.items) != 1:
+                    return node
+                it = node.items[0]
+                call = it.context_expr
+                if not isinstance(call, ast.Call) or any(isinstance(a, ast.Starred) for a in call.args) or any(k.arg is None for k in call.keywords):
+                    return node
+                f = call.func
+                if isinstance(f, ast.Name):
+                    nm, is_m = f.id, False
+                elif isinstance(f, ast.Attribute) and isinstance(f.value, ast.Name) and f.value.id in ('self', 'cls'):
+                    nm, is_m = f.attr, True
+                else:
+                    return node
+                if nm not in gens or gens[nm][3] != 'cm':
+                    return node
+                c, fn, ystmt, _cm, post = gens[nm]
+                if is_m != (c is not me.tree):
+                    return node
+                if post and any(isinstance(x, (ast.Return, ast.Break, ast.Continue)) for st in node.body for x in _walk_stmt_own(st)):
+                    return node
+                if any(isinstance(x, (ast.Yield, ast.YieldFrom)) for st in node.body for x in ast.walk(st)):
+                    return node
+                me.k += 1
+                K = me.k
+                proc = copy.deepcopy(fn)
+                proc.name = '%s__each_%d' % (fn.name, K)
+                proc.decorator_list = [d for d in proc.decorator_list if isinstance(d, ast.Name) and d.id == 'staticmethod']
+                for x in ast.walk(proc):
+                    if isinstance(x, ast.Expr) and isinstance(x.value, ast.Yield):
+                        x.value = ast.Call(func=ast.Name(id='__yield_%d__' % K, ctx=ast.Load()), args=[x.value.value if x.value.value is not None else ast.Constant(value=None)], keywords=[])
+                if proc.body and isinstance(proc.body[0], ast.Expr) and isinstance(proc.body[0].value, ast.Constant) and isinstance(proc.body[0].value.value, str) and len(proc.body) > 1:
+                    proc.body = proc.body[1:]
+                proc.returns = None
+                me.pending.append((c, fn, proc))
+                pcall = copy.deepcopy(call)
+                if isinstance(pcall.func, ast.Name):
+                    pcall.func.id = proc.name
+                else:
+                    pcall.func.attr = proc.name
+                tgt = it.optional_vars if it.optional_vars is not None else ast.Name(id='__cm_unused_%d' % K, ctx=ast.Store())
+                bind = ast.Assign(targets=[tgt], value=ast.Name(id='__yielded_%d__' % K, ctx=ast.Load()))
+                marker = ast.If(test=ast.Name(id='__consume_%d__' % K, ctx=ast.Load()), body=[ast.Expr(value=pcall)], orelse=[bind] + node.body)
+                me.saved[K] = (copy.deepcopy(node), proc.name)
+                me.unused_bind.add('__cm_unused_%d' % K)
+                ast.copy_location(marker, node)
+                ast.fix_missing_locations(marker)
+                changed[0] = True
+                return marker
         self.pending = []
+        self.unused_bind = set()
         T().visit(tree)
         for c, fn, proc in self.pending:
             ast.copy_location(proc, fn)
@@ -1965,6 +2047,9 @@ class GeneratorLoops:
                 E = holder[j[0]].value.args[0]
                 body = st.orelse
                 body[0].value = E
+                if isinstance(body[0].targets[0], ast.Name) and body[0].targets[0].id in getattr(self, 'unused_bind', ()):
+                    body = body[1:] if isinstance(E, ast.Constant) else [ast.copy_location(ast.Expr(value=E), body[0])] + body[1:]
+                    body = body or [ast.Pass()]
                 holder[j[0]:j[0] + 1] = body
                 blk[i:i + 1] = st.body
                 del self.saved[K]
@@ -2170,9 +2255,9 @@ def normalize_module(tree, modname):
     devirt.flatten_private_bases(tree)
     devirt.tuple_records(tree)
     devirt.devirtualize(tree)
-    _expand_private_contextmanagers(tree)
     gl = GeneratorLoops(tree)
     gl.prepare()
+    _expand_private_contextmanagers(tree)
     _private_generators_to_lists(tree)
     spell.visit(tree)
     apply_simple_decorators(tree)
